@@ -61,6 +61,18 @@ def nd_probe_texts():
     return out
 
 
+PROBE_CPS = [0x7F, 0x80, 0x85, 0xA0, 0xBF, 0xC0, 0xFF, 0x100, 0x13F, 0x7FF, 0x800, 0xFFF, 0x1000, 0x2028, 0xD7FF,
+             0xE000, 0xFFFD, 0xFFFF, 0x10000, 0x1F600, 0x3FFFF, 0x40000, 0x10FFFF, 0x663, 0x0A, 0x5C, 0x22, 0x27]
+CONTEXTS = ['"\\{c}"', '"\\{c}', '"a{c}b"', '"{c}', "'{c}'", "'\\{c}'", "'\\{c}", "//{c}\n", "//{c}", "{c}", "1{c}", "x{c}",
+            '"{c}\\{c}{c}"', ".{c}", "0x{c}", "1e{c}", "{c}{c}", "a {c} b", '"\\{c}\\{c}"', "'a\\{c}b'"]
+
+
+def context_probes():
+    """every sub-lexer / rule context x one code point of every UTF-8 byte shape (lead byte and
+    continuation bytes at their minimum 0x80 and maximum 0xBF)."""
+    return [ctx.replace("{c}", chr(c)) for ctx in CONTEXTS for c in PROBE_CPS]
+
+
 def random_texts(rng, n, lits, maxlen):
     pieces = list(lits.values()) + ["true", "false", "tru", "iffy", "0x1F", "0b101", "0b2", "1.5e+3", "1e5", "1_000",
                                     ".5", "1.", "..", "...", "\"a\\nb\"", "'\\''", "\"\\", "// c\n", "//", "/", "٣",
@@ -149,6 +161,7 @@ def run(tier, seed):
             samp = ["".join(r4.choice(ALPHABET) for _ in range(r4.range(4, 5))) for _ in range(20000)]
             streams.append(("sampled len 4-5 over the alphabet", samp, False))
         streams.append(("unicode Nd table endpoints", nd_probe_texts(), False))
+        streams.append(("rule contexts x UTF-8 byte-shape probe code points", context_probes(), False))
         n_rand = 20000 if tier == "quick" else 300000
         streams.append(("random token soups / unicode / keyword neighbours", random_texts(rng.fork("rand"), n_rand, lits, 64), False))
         n_mut = 300 if tier == "quick" else 5000
